@@ -87,8 +87,16 @@ ExprVerdict(r) ==
     ELSE IF \E i \in 1..Len(r.efw) : r.efw[i].r \notin {-1, r.efw[i].m} THEN "expr-forward-to-unrelated"
     ELSE "ok"
 
+\* sites(strategy, f, within = statement cursor): exactly the sites of the full listing at or beneath the statement, in the same order
+WithinVerdict(r) ==
+    LET under == SelectSeq(r.full, LAMBDA p : IsPrefix(r.at, p)) IN
+    IF r.failed THEN "within-listing-failed"
+    ELSE IF r.sub # under THEN "within-is-not-the-restriction-of-the-listing"
+    ELSE "ok"
+
 ApplyVerdict(r) ==
-    IF "kind" \in DOMAIN r /\ r.kind = "expr" THEN ExprVerdict(r) ELSE
+    IF "kind" \in DOMAIN r /\ r.kind = "expr" THEN ExprVerdict(r)
+    ELSE IF "kind" \in DOMAIN r /\ r.kind = "within" THEN WithinVerdict(r) ELSE
     LET E == r.edits
         K == Len(r.sites)
         New(p) == CHOOSE j \in 1..Len(r.new) : r.new[j].p = p
@@ -105,6 +113,7 @@ ApplyVerdict(r) ==
     ELSE IF ~chain /\ r.where >= 0 /\ \E k \in 1..Len(E) : ~EditUnder(E[k], r.sites[r.where + 1]) THEN "touched-another-site"
     ELSE IF ~chain /\ r.where >= 0 /\ ~(\E k \in 1..Len(E) : EditUnder(E[k], r.sites[r.where + 1])) /\ K > 0 THEN "site-not-touched"
     ELSE IF ~chain /\ r.where = -999 /\ \E s \in 1..K : ~(\E k \in 1..Len(E) : Covered(r.sites[s], E[k]) \/ EditUnder(E[k], r.sites[s])) THEN "a-site-not-rewritten"
+    ELSE IF ~chain /\ "cur" \in DOMAIN r /\ ~r.cur THEN "cursor-and-index-name-different-sites"
     \* --- sites and refusals account for what was considered
     ELSE IF SetOf(r.sites) \cap SetOf(r.refused) # {} THEN "site-and-refusal"
     ELSE IF SetOf(r.cand) # (SetOf(r.sites) \cup SetOf(r.refused)) THEN "considered-not-accounted"
